@@ -5,13 +5,33 @@
    Proved (safety, sequence level): on BOTH sides of EVERY run, application messages are handed to the application only at
    the expected number, in strictly increasing order, never twice, and the expected number never moves backwards — across
    cuts, reconnects and restarts.
-   `_partial`: that the payload handed over under number n is the payload the other side submitted under n (needs the wire
-   invariant of the sender plus C03's coverage clause), and convergence ("delivered = sent once the link stays up") are
-   evaluated on every run of the implementation by the `pair` stream's predicate (sig=delivery-not-prefix,
-   sig=not-converged) and not proved; TCP, goroutine scheduling and real timers are outside the model. *)
+   Proved (safety, payload level; Net/PairLog.v states, Net/PayloadInv.v + Net/PayloadProofs.v prove), for EVERY event list
+   (all ten pev constructors, any interleaving):
+   - every configuration: every FromApp on one side was made for the harness's reading (minput_of) of a message that carries
+     the number, type and body of a message the OTHER side's application submitted under that number (nothing is delivered
+     that was not sent; the verdict is accept); every application message in flight, queued or stored is such a copy or
+     replay; within an epoch of the sender's store (ended by a store reset) a number names at most one submission, and with
+     persistence that submission is what the store holds under the number;
+   - sequence resets disabled (NRof): no store reset ever happens, the whole run is one epoch; the list of (number, ClOrdID)
+     handed over on one side is a SUBSEQUENCE of the list submitted on the other (exactly once, in submission order), and
+     what is handed over under n has the type and body of the sender's stored n;
+   - the property's regime (NSof: resets disabled, persistence on, CompIDs set): the expected number never passes the number
+     of an application message without handing it over and never runs ahead of the peer's next sender number, hence the
+     delivered list is a PREFIX of the submitted list — `c05_safe`, the safety half of the `pair` stream's predicate,
+     holds of the model on every run (c05_safe_every_run).
+   What the abstract views do not carry: the callback record CbFromApp keeps MsgSeqNum, the verdict and `facts_of` of the
+   message (header facts and ClOrdID), not its type and body; the theorems therefore name the message `minput_of c om` the
+   callback was made for and state type/body of that (c05_fromapp_only_for_received ties log entries to received messages).
+   `_partial`: convergence ("delivered = sent once the link stays up for a few heartbeat intervals") is liveness; the model
+   has no fairness; it is evaluated on every run of the implementation by the `pair` stream's predicate (sig=not-converged)
+   and not proved; TCP, goroutine scheduling and real timers are outside the model. *)
+From Coq Require Import String.
 From Coq Require Import ZArith List Bool.
-From QF Require Import Base.Bytes Session.Types Session.Model Session.Spec Net.Pair Net.PairProofs.
+From QF Require Import Base.Bytes Session.Types Session.Model Session.Spec Net.Pair Net.PairProofs
+  Net.PairLog Net.PayloadInv Net.PayloadProofs.
 Import ListNotations.
+Open Scope string_scope.
+Open Scope list_scope.
 Open Scope Z_scope.
 
 Theorem c05_each_side_exactly_once_in_order : forall ca cb es,
@@ -24,3 +44,147 @@ Proof. exact c05_each_side_in_order. Qed.
 Theorem c05_transitions_preserve_bound : forall p e,
   Succ (p_a p) (p_a (pstep p e)) /\ Succ (p_b p) (p_b (pstep p e)).
 Proof. exact pstep_succ. Qed.
+
+(* ---------------------------------------------------------------------------------------------------------------- *)
+(* Payload identity.  Vocabulary (Net/PairLog.v): `plog` = the pair plus books (l_sent_x: every (number, ClOrdID) the
+   application of side x submitted, l_epoch_x: those since the last reset of x's store, l_dlv_x: every (number, ClOrdID)
+   handed to x's application); `lstep`/`lrun_trace` run `pstep` and keep the books; `reachable ca cb es g`: g is the initial
+   state or visited by the run of es.  Events allowed: every constructor of `pev`, in any order and number. *)
+
+(* the books never steer the run: forgetting them gives exactly the run of Net/Pair.v *)
+Theorem c05_books_do_not_steer : forall es g, map l_p (lrun_trace es g) = prun_trace es (l_p g).
+Proof. exact lrun_proj. Qed.
+
+(* the harness-level conversion keeps number, type and body of an application message *)
+Theorem c05_conversion_keeps_payload : forall c om id, o_body om = app_body id ->
+  mi_type (minput_of c om) = o_type om /\ mi_body (minput_of c om) = o_body om /\ mi_seq (minput_of c om) = FVal (o_seq om).
+Proof. exact minput_of_payload. Qed.
+
+(* every configuration, every run: whatever is handed to an application (FromApp) was submitted by the other side's
+   application and was given that number; the hand-over is for (the reading of) a message with that type and body *)
+Theorem c05_handed_over_was_sent : forall ca cb es g, reachable ca cb es g ->
+  handed_over_was_sent ca (l_sent_a g) (p_b (l_p g)) /\ handed_over_was_sent cb (l_sent_b g) (p_a (l_p g)).
+Proof. exact payload_identity. Qed.
+
+(* every configuration, every run: each application message in flight, in a send queue, written in the last event or in a
+   store is a first-time copy or a replay of a submission under its number; the store holds each entry under its own
+   number and a look-up by number finds it *)
+Theorem c05_in_flight_registered : forall ca cb es g, reachable ca cb es g ->
+  let p := l_p g in
+  (forall om, In om (p_ab p) \/ In om (s_to_send (p_a p)) \/ In om (wrote (p_a p)) -> registered (l_sent_a g) (o_seq om) om)
+  /\ (forall k om, In (k, om) (s_msgs (p_a p)) -> k = o_seq om /\ registered (l_sent_a g) k om /\ lookup_msg k (s_msgs (p_a p)) = Some om)
+  /\ (forall om, In om (p_ba p) \/ In om (s_to_send (p_b p)) \/ In om (wrote (p_b p)) -> registered (l_sent_b g) (o_seq om) om)
+  /\ (forall k om, In (k, om) (s_msgs (p_b p)) -> k = o_seq om /\ registered (l_sent_b g) k om /\ lookup_msg k (s_msgs (p_b p)) = Some om).
+Proof. exact in_flight_registered. Qed.
+
+(* every configuration, every run: in the current epoch of a sender's store a number names at most one submission, and with
+   persistence the store holds exactly that submission under the number *)
+Theorem c05_epoch_books : forall ca cb es g, reachable ca cb es g ->
+  epoch_ok ca (p_a (l_p g)) (l_sent_a g) (l_epoch_a g) /\ epoch_ok cb (p_b (l_p g)) (l_sent_b g) (l_epoch_b g).
+Proof. exact epoch_books. Qed.
+
+(* sequence resets disabled: no store reset ever happens on either side; the current epoch is the whole run *)
+Theorem c05_no_resets_single_epoch : forall ca cb es g, NRof ca cb -> reachable ca cb es g ->
+  ~ In CbStoreReset (s_cbs (p_a (l_p g))) /\ ~ In CbStoreReset (s_cbs (p_b (l_p g)))
+  /\ l_epoch_a g = l_sent_a g /\ l_epoch_b g = l_sent_b g.
+Proof. exact no_resets_single_epoch. Qed.
+
+(* sequence resets disabled: what one application has received — as a list of (number, ClOrdID), in hand-over order — is a
+   subsequence of what the other application submitted: nothing that was not sent, nothing twice, in submission order *)
+Theorem c05_delivered_subsequence_of_sent : forall ca cb es g, NRof ca cb -> reachable ca cb es g ->
+  subseq (l_dlv_b g) (l_sent_a g) /\ subseq (l_dlv_a g) (l_sent_b g).
+Proof. exact delivered_subseq_sent. Qed.
+
+(* sequence resets disabled, persistence on the sending side: the message handed over under n has the type and body of what
+   the sender's store holds under n at that moment (stated without the books) *)
+Theorem c05_handed_over_is_stored_original : forall ca cb es g, NRof ca cb -> reachable ca cb es g ->
+  (c_disable_persist ca = false -> handed_over_is_stored ca (p_a (l_p g)) (p_b (l_p g)))
+  /\ (c_disable_persist cb = false -> handed_over_is_stored cb (p_b (l_p g)) (p_a (l_p g))).
+Proof. exact stored_original. Qed.
+
+(* sequence resets disabled, messages persisted, CompIDs set (NSof — the property's quantifier): the expected number of one
+   side never passes a number the other side gave to an application message without that message having been handed over,
+   and never runs ahead of the other side's next sender number *)
+Theorem c05_no_number_passed_without_handover : forall ca cb es g, NSof ca cb -> reachable ca cb es g ->
+  (forall n id, In (n, id) (l_sent_a g) -> n < s_tgt (p_b (l_p g)) -> In (n, id) (l_dlv_b g))
+  /\ (forall n id, In (n, id) (l_sent_b g) -> n < s_tgt (p_a (l_p g)) -> In (n, id) (l_dlv_a g))
+  /\ s_tgt (p_b (l_p g)) <= s_snd (p_a (l_p g)) /\ s_tgt (p_a (l_p g)) <= s_snd (p_b (l_p g)).
+Proof. exact no_skip. Qed.
+
+(* ... hence what one application has received is a PREFIX of what the other submitted (numbers and ClOrdIDs) *)
+Theorem c05_delivered_prefix_of_sent : forall ca cb es g, NSof ca cb -> reachable ca cb es g ->
+  (exists r, l_sent_a g = l_dlv_b g ++ r) /\ (exists r, l_sent_b g = l_dlv_a g ++ r).
+Proof. exact delivered_prefix_sent. Qed.
+
+(* ... and in the vocabulary of Net/Pair.v alone (no books): the safety predicate `c05_safe` — the one the `pair` stream
+   evaluates on the implementation's observation after every event — holds of the model for every event list: the ClOrdIDs
+   handed to B's application over the run (delivered_ids of each visited state, in order) are a prefix of the ClOrdIDs
+   submitted on A (the PSendA events, in order), and the same from B to A *)
+Theorem c05_safe_every_run : forall ca cb es, NSof ca cb ->
+  c05_safe (sent_ids_a es) (delivered_ids_b (prun_trace es (pinit ca cb))) = true
+  /\ c05_safe (sent_ids_b es) (delivered_ids_a (prun_trace es (pinit ca cb))) = true.
+Proof. exact c05_safe_model. Qed.
+
+(* the persistence hypothesis is needed: with PersistMessages=N on the sender (resets disabled, CompIDs set) a message lost in
+   a cut is covered by a gap fill and the next one is handed over *)
+Theorem c05_safe_without_persistence_refuted :
+  NRof c05_ex_ca_nopersist c05_ex_cb /\ ids_set c05_ex_ca_nopersist /\ ids_set c05_ex_cb
+  /\ sent_ids_a c05_ex_events_nopersist = [B "o1"; B "o2"]
+  /\ delivered_ids_b (prun_trace c05_ex_events_nopersist (pinit c05_ex_ca_nopersist c05_ex_cb)) = [B "o2"]
+  /\ c05_safe (sent_ids_a c05_ex_events_nopersist)
+              (delivered_ids_b (prun_trace c05_ex_events_nopersist (pinit c05_ex_ca_nopersist c05_ex_cb))) = false.
+Proof. exact c05_safe_nopersist_refuted. Qed.
+
+(* the session-level invariant behind these (Net/PayloadInv.v), for any notion R of "registered (number, type, body)" and any
+   notion P of "came off the link" whose members pass validator and application: one event keeps it.  SI says: store, send
+   queue and wire hold only registered application messages (a replay keeps number, type, body of the stored original), the
+   store holds each entry under its own number, numbers strictly descending; stash and inbound buffer hold only P-messages;
+   every FromApp of the event was made for a P-message (the log records its MsgSeqNum, verdict and facts_of); under the
+   regime NR no store reset is logged; the next sender number and the store only grow unless the store was reset in the
+   event; under the regime NS (inbound messages well formed: Pj) written messages have numbers below the next sender number,
+   gap fills cover only numbers without a stored application message, and the expected number advances only over numbers
+   handed over in this event or not given to an application message by the peer (Skip), staying within `bound` *)
+Theorem c05_session_invariant_step :
+  forall c (R : Z -> bytes -> list (Z * bytes) -> Prop) (P : minput -> Prop) (NR : Prop) n0 msgs0 (NS : Prop) t0 bound
+         (Skip : Z -> Prop) s e,
+  (forall m, P m -> mi_valid m = VAccept /\ mi_app m = VAccept /\ exists d, mi_stime m = FVal d) ->
+  (NR -> c_reset_on_logon c = false /\ c_reset_on_logout c = false /\ c_reset_on_disconnect c = false) ->
+  (NR -> forall m, P m -> beq_bytes (mi_type m) T_LOGON = true -> mi_reset m <> FVal true) ->
+  (NS -> NR /\ c_disable_persist c = false) ->
+  (NS -> forall m, P m -> Pj bound Skip m) ->
+  SI c R P NR n0 msgs0 NS t0 bound Skip s -> ev_ok R P NR s e ->
+  SI c R P NR (s_snd s) (s_msgs s) NS (s_tgt s) bound Skip (step s e).
+Proof. exact si_step. Qed.
+
+(* ... and the FromApp callbacks of one event are made only for messages the session received: the event's own message, a
+   message kept in the recovery stash, or one waiting in the inbound buffer — the log entry carries that message's MsgSeqNum,
+   verdict and facts_of (the callback record has no field for type and body; this is the link to them) *)
+Theorem c05_fromapp_only_for_received :
+  forall c (R : Z -> bytes -> list (Z * bytes) -> Prop) (P : minput -> Prop) (NR : Prop) n0 msgs0 (NS : Prop) t0 bound
+         (Skip : Z -> Prop) s e,
+  (forall m, P m -> mi_valid m = VAccept /\ mi_app m = VAccept /\ exists d, mi_stime m = FVal d) ->
+  (NR -> c_reset_on_logon c = false /\ c_reset_on_logout c = false /\ c_reset_on_disconnect c = false) ->
+  (NR -> forall m, P m -> beq_bytes (mi_type m) T_LOGON = true -> mi_reset m <> FVal true) ->
+  (NS -> NR /\ c_disable_persist c = false) ->
+  (NS -> forall m, P m -> Pj bound Skip m) ->
+  SI c R P NR n0 msgs0 NS t0 bound Skip s -> ev_ok R P NR s e ->
+  forall q t v f, In (CbFromApp q t v f) (s_cbs (step s e)) ->
+  exists m, received s e m /\ P m /\ is_admin (mi_type m) = false /\ q = mi_seq m /\ v = mi_app m /\ f = facts_of m.
+Proof. exact fromapp_source. Qed.
+
+(* non-vacuity: a configuration pair in the property's regime (resets disabled, persistence on, CompIDs set); a run through
+   a cut, submissions while disconnected, reconnect, gap detection on both sides and PossDup replays, at the end of which
+   each side has received exactly what the other submitted *)
+Example c05_ex_hypotheses_hold : NSof c05_ex_ca c05_ex_cb.
+Proof. exact c05_ex_hyps. Qed.
+Example c05_ex_reachable : forall k, reachable c05_ex_ca c05_ex_cb c05_ex_events (c05_ex_at k).
+Proof. exact (nth_reachable c05_ex_ca c05_ex_cb c05_ex_events). Qed.
+Example c05_ex_replays_delivered :
+  map (fun m => (o_type m, o_seq m, is_possdup m)) (p_ab (l_p (c05_ex_at 20)))
+    = [(B "D", 2, true); (B "D", 3, true); (B "D", 4, true); (B "4", 5, true)]
+  /\ handed (p_b (l_p (c05_ex_at 21))) = [(2, B "o1")]
+  /\ l_sent_a (c05_ex_at 24) = [(2, B "o1"); (3, B "o2"); (4, B "o3")] /\ l_dlv_b (c05_ex_at 24) = l_sent_a (c05_ex_at 24)
+  /\ l_sent_b (c05_ex_at 24) = [(2, B "r1")] /\ l_dlv_a (c05_ex_at 24) = l_sent_b (c05_ex_at 24)
+  /\ sent_ids_a c05_ex_events = [B "o1"; B "o2"; B "o3"]
+  /\ delivered_ids_b (prun_trace c05_ex_events (pinit c05_ex_ca c05_ex_cb)) = [B "o1"; B "o2"; B "o3"].
+Proof. exact c05_ex_run. Qed.
